@@ -148,8 +148,8 @@ def _case(i):
             predicted = 'load_error'
         res['hist']['predicted:' + str(predicted if (loadable is False or admitted) else 'not_admitted(check only)')] = 1
         info = {'file_kind': fkind, 'name_kind': nkind, 'stdin_kind': skind, 'global_flags': None, 'file_bytes_hex': data[:400].hex(),
-                'stdin_bytes_hex': sdata[:200].hex(), 'file_name': fname}
-        key = C.sha(data + b'\0' + sdata + fname.encode())
+                'stdin_bytes_hex': sdata[:200].hex(), 'file_name': repr(fname.encode('utf-8', 'surrogateescape'))}
+        key = C.sha(data + b'\0' + sdata + fname.encode('utf-8', 'surrogateescape'))
         res['key'] = key
         verbose = ['--verbose'] if rng.random() < 0.35 else []
         info['global_flags'] = verbose
@@ -204,7 +204,7 @@ def main(tier, seed):
     t0 = time.time()
     rep = C.Reporter(PID, tier, seed)
     C.build(['repo'])
-    n = 3000 if tier == 'quick' else 20000
+    n = 3000 if tier == 'quick' else 80000
     rundir = C.mktmp(PID)
     _RUN.update(tier=tier, seed=seed, dir=rundir, bin=C.HYEONG)
     results = C.pmap(_case, list(range(n)), chunksize=4, stop_after_bad=40,
